@@ -30,6 +30,7 @@ def checkLine (line : String) : String × String × Verdict :=
         | "up" => checkUP op args r
         | "div" => checkDiv op args r
         | "udiv" => checkUDiv op args r
+        | "ord" => checkOrd op args r
         | _ => Verdict.skip s!"unknown family {fam}"
       (idx, fam, v)
     | _ => ("?", "?", .skip "short line")
